@@ -468,18 +468,18 @@ class Ctx:
                 break
         if rc is None:
             res["result"] = "timed out (not counted)"
-            self.notes["coqchk"] = res
+            self.notes.setdefault("coqchk", []).append(res)
             return True
         m = re.search(r"\* Axioms:(.*?)\n\s*\n\* Constants/Inductives relying on type-in-type:(.*?)\n\s*\n\* Constants/Inductives relying on unsafe \(co\)fixpoints:(.*?)\n\s*\n\* Inductives whose positivity is assumed:(.*?)\n", out + "\n\n", flags=re.S)
         if rc != 0 or not m:
             res["result"] = "rejected"
             res["output"] = out[-800:]
-            self.notes["coqchk"] = res
+            self.notes.setdefault("coqchk", []).append(res)
             self.broken.append("coqchk does not accept %s: %s" % (", ".join(mods), out[-300:]))
             return False
         fields = [" ".join(x.split()) for x in m.groups()]
         res.update({"result": "accepted", "axioms": fields[0], "type_in_type": fields[1], "unsafe_fixpoints": fields[2], "assumed_positivity": fields[3]})
-        self.notes["coqchk"] = res
+        self.notes.setdefault("coqchk", []).append(res)
         bad = [f for f in fields[1:] if f != "<none>"]
         if bad:
             self.broken.append("coqchk: kernel checks switched off somewhere in the cone: " + "; ".join(bad))
